@@ -67,6 +67,7 @@ func main() {
 	}
 	n := r.N(250, 7500)
 	r.Parallel("db", n, func(i int) { runDB(r, i) })
+	setopBattery(r)
 	pinned(r)
 	floors(r)
 	r.Finish()
